@@ -713,15 +713,15 @@ fn asciified(case: &OldCase) -> OldCase {
 /// The case with the escapes `\/`, `\b`, `\r` (previous grammar only) replaced
 /// by `\\` (both grammars, same length) in its string literals.
 fn escapes_neutralised(case: &OldCase) -> OldCase {
-    let fix = |s: &str| s.replace("\\/", "\\\\").replace("\\b", "\\\\").replace("\\r", "\\\\");
     let mut c = case.clone();
     // only the planted literal "a\?b" carries such an escape
     for e in ["\\/", "\\b", "\\r"] {
         let lit = format!("\"a{e}b\"");
-        c.text = c.text.replace(&lit, &fix(&lit));
+        let fixed = "\"a\\\\b\"".to_string();
+        c.text = c.text.replace(&lit, &fixed);
         for t in c.expect_tokens.iter_mut() {
             if *t == lit {
-                *t = fix(&lit);
+                *t = fixed.clone();
             }
         }
     }
@@ -783,7 +783,8 @@ pub fn decide(case: &OldCase, o: &FmtOpts, origin: &str, mut classes: Vec<String
         // such a twin (listed findings aside), that difference is the cause.
         let run = |c: &OldCase| {
             let r = pipe::on_fresh_thread(|| migrate_like_cli(&c.text, &md));
-            unknown(&evaluate(c, &r)).is_none()
+            // a twin that is plain current syntax is left alone: nothing wrong there
+            matches!(r, Migrated::Untouched) || unknown(&evaluate(c, &r)).is_none()
         };
         let esc = if case.old_escape { Some(escapes_neutralised(case)) } else { None };
         let asc = if !x.is_ascii() { Some(asciified(case)) } else { None };
